@@ -267,6 +267,41 @@ func Quiescent() string {
 	return fmt.Sprintf("the listener waits for messages and all %d workers wait for work", workers)
 }
 
+// Stalled describes the process as stalled when every goroutine that is inside go-res is
+// blocked on a channel, condition, wait group or mutex - none is running, runnable or
+// sleeping - and at least one of them is inside the named function (e.g. "Shutdown"): with
+// the callers of the service gone, nothing is left that could wake them. "" otherwise.
+func Stalled(fn string) string {
+	buf := make([]byte, 1<<22)
+	buf = buf[:runtime.Stack(buf, true)]
+	in, where := 0, ""
+	for _, g := range strings.Split(string(buf), "\n\n") {
+		if !strings.Contains(g, "github.com/jirenius/go-res.") {
+			continue
+		}
+		head, _, _ := strings.Cut(g, "\n")
+		blocked := false
+		for _, st := range []string{"[chan receive", "[chan send", "[select", "[sync.Cond.Wait", "[sync.WaitGroup.Wait", "[sync.Mutex.Lock", "[sync.RWMutex", "[semacquire"} {
+			if strings.Contains(head, st) {
+				blocked = true
+			}
+		}
+		if !blocked {
+			return ""
+		}
+		if strings.Contains(g, "go-res.(*Service)."+fn+"(") {
+			in++
+			if i := strings.IndexByte(head, '['); i >= 0 {
+				where = strings.TrimSuffix(strings.TrimSpace(head[i:]), ":")
+			}
+		}
+	}
+	if in == 0 {
+		return ""
+	}
+	return fmt.Sprintf("%d goroutines are inside %s (%s) and every goroutine inside go-res is blocked", in, fn, where)
+}
+
 // QueryPassed returns how many query requests the query listeners have passed on to workers.
 func (r *Runner) QueryPassed() int64 {
 	r.mu.Lock()
